@@ -382,7 +382,7 @@ func C01(r *h.Run) {
 			via = viaHTTP1
 			kind = kinds[rng.Intn(3)]
 		}
-		c := e2eCfg{Proto: protos[k%3], Codec: codecs[rng.Intn(3)], Compression: comps[rng.Intn(3)], Kind: kind,
+		c := e2eCfg{Proto: protos[(k+k/3)%3], Codec: codecs[rng.Intn(3)], Compression: comps[rng.Intn(3)], Kind: kind,
 			SendCompression: rng.Bool(), MinBytes: []int{0, 1, 512, 513}[rng.Intn(4)], Via: via}
 		reqMsgs := [][]byte{{7}, {}, {}, {3}}
 		resMsgs := [][]byte{seqPayload(rng, 5), {}, seqPayload(rng, 3), {}}
